@@ -29,6 +29,7 @@ import ClipperVerif.Driver.C06Joins
 import ClipperVerif.Driver.TrimHorz
 import ClipperVerif.Driver.AelOpenRings
 import ClipperVerif.Driver.HorzJoins
+import ClipperVerif.Driver.C08Tidy
 namespace Clipper.Driver
 open Clipper.Proto
 
@@ -63,7 +64,8 @@ def handlers : List (String → Option (P String)) := [
   C06Joins.handle,
   TrimHorz.handle,
   AelOpenRings.handle,
-  HorzJoins.handle
+  HorzJoins.handle,
+  C08Tidy.handle
 ]
 
 def dispatch1 (cmd : String) : Option (P String) :=
